@@ -79,12 +79,15 @@ pub fn to_ring_n(sc: &Scenario, rng: &mut Rng, style: SegStyle, delay_pct: u32) 
     let mut pending: Vec<usize> = Vec::new();
     let mut next_conn = 0usize;
     // drawn up front so that the closure below needs no PRNG access
-    let mut caps: Vec<(u32, u32)> = Vec::new();
+    let mut caps: Vec<(u32, u32, u32)> = Vec::new();
     for _ in 0..8 {
         let w = if rng.chance(1, 4) { *rng.pick(&[1u32, 3, 7, 16, 24, 25, 64]) } else { 0 };
         let r = if rng.chance(1, 6) { *rng.pick(&[1u32, 2, 5, 23, 24, 25, 64]) } else { 0 };
-        caps.push((w, r));
+        // a slow reader: the peer's window opens only now and then
+        let win = if rng.chance(1, 8) { *rng.pick(&[1u32, 10, 24, 30, 100, 1000]) } else { 0 };
+        caps.push((w, r, win));
     }
+    let stalled: std::cell::RefCell<Vec<usize>> = std::cell::RefCell::new(Vec::new());
     let remap = |c: usize, map: &mut Vec<usize>, idle: &mut Vec<u64>, pending: &mut Vec<usize>, next_conn: &mut usize, out: &mut Scenario| {
         while map.len() <= c {
             map.push(usize::MAX);
@@ -98,14 +101,33 @@ pub fn to_ring_n(sc: &Scenario, rng: &mut Rng, style: SegStyle, delay_pct: u32) 
             out.events.push(Ev::Connect { c: map[c] });
             // per-connection transport knobs: how much one read / one write moves
             // (short writes and tiny reads whatever the delivery segmentation is)
-            let r = caps.get(map[c] % caps.len().max(1)).copied().unwrap_or((0, 0));
+            let r = caps.get(map[c] % caps.len().max(1)).copied().unwrap_or((0, 0, 0));
             if r.0 > 0 {
                 out.events.push(Ev::WriteCap { c: map[c], n: r.0 });
             }
             if r.1 > 0 {
                 out.events.push(Ev::ReadCap { c: map[c], n: r.1 });
             }
+            if r.2 > 0 {
+                stalled.borrow_mut().push(map[c]);
+            }
         }
+    };
+    // A slow reader makes its connection's answers arrive late while the request
+    // was executed early; so that the order in which the model sees operations of
+    // different connections stays the execution order, a stalled connection
+    // catches up before any other connection (or the clock) acts.
+    let mut limited: Vec<usize> = Vec::new();
+    let flush_others = |keep: Option<usize>, limited: &mut Vec<usize>, out: &mut Scenario| {
+        let mut rest = Vec::new();
+        for c in limited.drain(..) {
+            if Some(c) == keep {
+                rest.push(c);
+            } else {
+                out.events.push(Ev::Window { c, n: u64::MAX });
+            }
+        }
+        *limited = rest;
     };
     for ev in &sc.events {
         match ev {
@@ -114,6 +136,7 @@ pub fn to_ring_n(sc: &Scenario, rng: &mut Rng, style: SegStyle, delay_pct: u32) 
             }
             Ev::Send { c, req } => {
                 remap(*c, &mut map, &mut idle, &mut pending, &mut next_conn, &mut out);
+                flush_others(Some(map[*c]), &mut limited, &mut out);
                 pending[*c] += wire_len(req);
                 out.events.push(Ev::Send { c: map[*c], req: req.clone() });
             }
@@ -124,6 +147,14 @@ pub fn to_ring_n(sc: &Scenario, rng: &mut Rng, style: SegStyle, delay_pct: u32) 
             }
             Ev::Deliver { c, n } => {
                 remap(*c, &mut map, &mut idle, &mut pending, &mut next_conn, &mut out);
+                flush_others(Some(map[*c]), &mut limited, &mut out);
+                if stalled.borrow().contains(&map[*c]) && !limited.contains(&map[*c]) {
+                    let w = caps.get(map[*c] % caps.len().max(1)).map(|x| x.2).unwrap_or(0);
+                    if w > 0 {
+                        out.events.push(Ev::Window { c: map[*c], n: w as u64 });
+                        limited.push(map[*c]);
+                    }
+                }
                 let total = (*n as usize).min(pending[*c]);
                 let st = if style == SegStyle::Mixed {
                     *rng.pick(&[SegStyle::OneShot, SegStyle::OneShot, SegStyle::RandomCuts, SegStyle::HeaderThenRest, SegStyle::HeaderPlusK, SegStyle::ByteAtATime])
@@ -135,7 +166,7 @@ pub fn to_ring_n(sc: &Scenario, rng: &mut Rng, style: SegStyle, delay_pct: u32) 
                 let k = sizes.len();
                 for (i, sz) in sizes.into_iter().enumerate() {
                     out.events.push(Ev::Deliver { c: map[*c], n: sz as u32 });
-                    if i + 1 < k && rng.chance(delay_pct as u64, 100) {
+                    if i + 1 < k && !limited.contains(&map[*c]) && rng.chance(delay_pct as u64, 100) {
                         // a delay between two segments of one delivery; short enough
                         // never to trip the idle timeout on its own
                         let ms = *rng.pick(&[1u64, 10, 250, 999, 1000]);
@@ -150,8 +181,15 @@ pub fn to_ring_n(sc: &Scenario, rng: &mut Rng, style: SegStyle, delay_pct: u32) 
                 }
                 pending[*c] -= total;
                 idle[*c] = 0;
+                if stalled.borrow().contains(&map[*c]) {
+                    let n = *rng.pick(&[0u64, 1, 24, 25, 60, 500]);
+                    if n > 0 {
+                        out.events.push(Ev::Drain { c: map[*c], n });
+                    }
+                }
             }
             Ev::Advance { ms } => {
+                flush_others(None, &mut limited, &mut out);
                 out.events.push(Ev::Advance { ms: *ms });
                 for (c, x) in idle.iter_mut().enumerate() {
                     *x += ms;
@@ -163,6 +201,7 @@ pub fn to_ring_n(sc: &Scenario, rng: &mut Rng, style: SegStyle, delay_pct: u32) 
                 }
             }
             other => {
+                flush_others(None, &mut limited, &mut out);
                 let mut e = other.clone();
                 match &mut e {
                     Ev::Fin { c } | Ev::Rst { c } | Ev::Window { c, .. } | Ev::Drain { c, .. } | Ev::ReadCap { c, .. } | Ev::WriteCap { c, .. } => {
@@ -175,6 +214,10 @@ pub fn to_ring_n(sc: &Scenario, rng: &mut Rng, style: SegStyle, delay_pct: u32) 
                 out.events.push(e);
             }
         }
+    }
+    // at the end every slow reader catches up, so that every answer can be seen
+    for c in limited.iter() {
+        out.events.push(Ev::Window { c: *c, n: u64::MAX });
     }
     out
 }
